@@ -306,6 +306,16 @@ class P(Prop):
                             self.stats.bump("history:transform-result-edited")
                             self.oracle(c2)
                             self.oracle_super_if_single(c2)
+                if i % 5 == 1:
+                    # chain: the result of limit_fanin(c, k) with k >= 3 still has gates of more than two inputs, one of them
+                    # already called `<g>_limit_fanin_<i>`: supergates' own limit_fanin(·, 2) must pick fresh names
+                    cw = gen.circuit(self.rng, n_in=(4, 6), n_gates=(1, 5), max_arity=6, consts=0.0, dead=False, p_out=0.3,
+                                     unary_multi=0.0)
+                    o1, ck = call(cg.tx.limit_fanin, cw, self.rng.choice([3, 3, 4]))
+                    if o1 == "ok":
+                        self.stats.bump("history:limit_fanin-k3-then-supergates")
+                        self.oracle(ck)
+                        self.oracle_super_if_single(ck)
             if self.too_many():
                 break
 
